@@ -111,31 +111,7 @@ func (r *Runner) Restart() error {
 	}
 	r.E = e
 	r.NRestarts++
-	r.adoptInt8AfterRestart()
 	return nil
-}
-
-// Known finding "int8-restart": an int8 index re-trains its quantiser range at restart (on a
-// map-order-dependent vector, or on already de-quantised values after a compaction), so values
-// move by more than one step. While that finding is listed, the model adopts the values an int8
-// index reads back after a restart (counted in Excluded) and keeps checking everything else.
-func (r *Runner) adoptInt8AfterRestart() {
-	if !verifkit.Known("int8-restart") {
-		return
-	}
-	for name, mi := range r.M.Idx {
-		if mi.Prec != "int8" {
-			continue
-		}
-		for id, mv := range mi.Live {
-			vd, err := r.E.VGet(name, id)
-			if err != nil || len(vd.Vector) != len(mv.Base) {
-				continue
-			}
-			mv.Base = append([]float32(nil), vd.Vector...)
-			r.Excluded["int8-restart"]++
-		}
-	}
 }
 
 func (r *Runner) probeIDs() map[string][]string {
